@@ -516,6 +516,96 @@ theorem C16_kept_positions (mask : List Bool) :
         obtain ⟨k, _, rfl⟩ := List.mem_map.1 ha
         omega
 
+/-! ## 6. `MessageData.to_numpy` called again: when the conversion may be skipped -/
+
+/-- The conversion is skipped only when there are no messages to convert from, or the cached time vector has exactly
+one entry per current message and its first and last entry equal the P1 times of the first and the last message.
+(This is all the test establishes: a list changed in its interior with the same count and the same end times is not
+told apart - reported as `C16/MessageData/sequence/same-count-same-end-times/...`.) -/
+theorem C16_md_skip_only_if (cached : Dict) (e : Ends) (h : mdDecision cached e = .skip) :
+    e.count = 0 ∨ ∃ p1 f l f' l', dictGet cached p1TimeKey = some (.a1 p1) ∧ p1.length = e.count ∧
+      e.first = some f ∧ p1.head? = some (.flt f') ∧ fltNe f f' = false ∧
+      e.last = some l ∧ p1.getLast? = some (.flt l') ∧ fltNe l l' = false := by
+  unfold mdDecision at h
+  split at h
+  · cases h
+  · rename_i p1 hc
+    split at h
+    · rename_i h0; exact Or.inl h0
+    · split at h
+      · cases h
+      · rename_i hn
+        split at h
+        · cases h
+        · rename_i f f' hf hh
+          split at h
+          · cases h
+          · rename_i hne
+            split at h
+            · cases h
+            · rename_i l l' hl hg
+              split at h
+              · cases h
+              · rename_i hne'
+                refine Or.inr ⟨p1, f, l, f', l', hc, ?_, hf, hh, by simpa using hne, hl, hg, by simpa using hne'⟩
+                have : ¬ e.count ≠ p1.length := hn
+                omega
+            · cases h
+        · cases h
+  · cases h
+
+/-- No numpy members yet: the conversion is done. -/
+theorem C16_md_first_conversion (cached : Dict) (e : Ends) (hc : dictGet cached p1TimeKey = none) :
+    mdDecision cached e = .convert := by
+  simp [mdDecision, hc]
+
+/-- A change of the number of messages since the arrays were computed is always followed by a fresh conversion
+(whatever bookkeeping the object keeps besides the list). -/
+theorem C16_md_count_change_reconverts (cached : Dict) (e : Ends) (p1 : List Scalar)
+    (hc : dictGet cached p1TimeKey = some (.a1 p1)) (h0 : e.count ≠ 0) (hn : e.count ≠ p1.length) :
+    mdDecision cached e = .convert := by
+  simp [mdDecision, hc, h0, hn]
+
+/-- So is a change of the first or of the last P1 time (a NaN end time never counts as unchanged). -/
+theorem C16_md_end_change_reconverts (cached : Dict) (e : Ends) (p1 : List Scalar) (f f' : Nat)
+    (hc : dictGet cached p1TimeKey = some (.a1 p1)) (h0 : e.count ≠ 0)
+    (hf : e.first = some f) (hh : p1.head? = some (.flt f')) (hne : fltNe f f' = true) :
+    mdDecision cached e = .convert := by
+  unfold mdDecision
+  simp only [hc, h0, if_false, hf, hh, hne, if_true]
+  split <;> rfl
+
+/-- A skipped conversion leaves every attribute as it was. -/
+theorem C16_md_skip_keeps (flag : Bool) (ntd : List Nat) (cached : Dict) (e : Ends) (conv : Dict)
+    (h : mdDecision cached e = .skip) : mdToNumpy flag ntd cached e conv = .ok cached := by
+  simp [mdToNumpy, h]
+
+/-- Whenever the conversion is done, every output of the class conversion of the CURRENT message list is what the
+object holds afterwards, whatever it held before (no removal requested) ... -/
+theorem C16_md_converted_holds_current (ntd : List Nat) (cached : Dict) (e : Ends) (conv : Dict)
+    (h : mdDecision cached e = .convert) :
+    ∃ d, mdToNumpy false ntd cached e conv = .ok d ∧ ∀ k a, lastVal conv k = some a → dictGet d k = some a := by
+  refine ⟨dictUpdate cached conv, by simp [mdToNumpy, h, removeNan], ?_⟩
+  intro k a hk
+  rw [dictGet_dictUpdate, hk]
+
+/-- ... and with removal requested the result is the uniform removal (`C16_nan_removal_uniform`) applied to exactly
+those attributes. -/
+theorem C16_md_converted_then_removed (ntd : List Nat) (cached : Dict) (e : Ends) (conv : Dict) (p1 : List Scalar)
+    (h : mdDecision cached e = .convert) (hp : lastVal conv p1TimeKey = some (.a1 p1)) :
+    ∃ d, mdToNumpy true ntd cached e conv = .ok d ∧ removeNan true ntd (dictUpdate cached conv) = some d ∧
+      dictGet (dictUpdate cached conv) p1TimeKey = some (.a1 p1) := by
+  have hg : dictGet (dictUpdate cached conv) p1TimeKey = some (.a1 p1) := by rw [dictGet_dictUpdate, hp]
+  obtain ⟨d, hd, _⟩ := C16_nan_removal_uniform ntd (dictUpdate cached conv) p1 hg
+  exact ⟨d, by simp [mdToNumpy, h, hd], hd, hg⟩
+
+/-- The two together, for the case a stale counter would miss: after any change of the message count the attributes
+named by the class conversion describe the current list. -/
+theorem C16_md_after_count_change (ntd : List Nat) (cached : Dict) (e : Ends) (conv : Dict) (p1 : List Scalar)
+    (hc : dictGet cached p1TimeKey = some (.a1 p1)) (h0 : e.count ≠ 0) (hn : e.count ≠ p1.length) :
+    ∃ d, mdToNumpy false ntd cached e conv = .ok d ∧ ∀ k a, lastVal conv k = some a → dictGet d k = some a :=
+  C16_md_converted_holds_current ntd cached e conv (C16_md_count_change_reconverts cached e p1 hc h0 hn)
+
 /-! ## Non-vacuity (executable checks of the model, not theorems) -/
 
 -- a transposed 3-vector field over two messages: A×N, column i = message i; NaN removal drops column 1 everywhere
@@ -530,5 +620,19 @@ theorem C16_kept_positions (mask : List Bool) :
 
 -- the extracted CalibrationStatus table drops a leading UNKNOWN-stage message (the documented trimming)
 #guard (Gen.allTables.filter (fun t => t.prelude != .none)).length ≤ 1
+
+-- three messages converted, two epochs inserted between the first and the last (same end times): converted again;
+-- the same three messages: skipped; an interior message exchanged for another one: skipped as well (open finding)
+#guard
+  let p1 (xs : List Nat) : Dict := [(p1TimeKey, .a1 (xs.map .flt))]
+  let t (n : Nat) : Nat := 0x3ff0000000000000 + n
+  mdDecision (p1 [t 1, t 2, t 3]) ⟨5, some (t 1), some (t 3)⟩ == .convert
+    && mdDecision (p1 [t 1, t 2, t 3]) ⟨3, some (t 1), some (t 3)⟩ == .skip
+    && mdDecision (p1 [t 1, t 2, t 3]) ⟨3, some (t 1), some (t 4)⟩ == .convert
+    && mdDecision (p1 [t 1, t 2, nanBits]) ⟨3, some (t 1), some nanBits⟩ == .convert
+    && mdDecision [] ⟨0, none, none⟩ == .convert
+    && mdDecision (p1 [t 1]) ⟨0, none, none⟩ == .skip
+    && mdDecision (p1 [t 1, t 2]) ⟨2, none, none⟩ == .raises
+    && mdToNumpy true [] (p1 [t 1, t 2]) ⟨3, some (t 1), some (t 2)⟩ (p1 [t 1, nanBits, t 2]) == .ok (p1 [t 1, t 2])
 
 end FeVerif
